@@ -11,7 +11,17 @@ import (
 var words = []string{"alpha", "beta", "gamma", "delta", "foo", "bar", "baz", "qux", "Foo", "BAR", "x", "y1", "été", "日本", "a_b", "co-op"}
 
 var headingTexts = []string{"a", "A", "a-1", "a_1", "a 1", "", "#", "!!!", "é", "日本", "heading", "heading-1", "1", "a-1-1",
-	"*a*", "`a`", "a  b", "a-b", "A B", "id", "heading-2", "[a](/u)", "a\\*", "&amp;", "-", "_", "a-2", "1-1", "Heading", " a ", "a#", "release notes", "Release Notes", "getting started fast", "a b c"}
+	"*a*", "`a`", "a  b", "a-b", "A B", "id", "heading-2", "[a](/u)", "a\\*", "&amp;", "-", "_", "a-2", "1-1", "Heading", " a ", "a#", "release notes", "Release Notes", "getting started fast", "a b c",
+	// texts that differ only in the case of non-ASCII letters
+	"É", "Été", "été", "über uns", "Über uns", "ÜBER UNS", "Σ", "σ", "ς", "ВВЕДЕНИЕ", "Введение", "введение", "İ", "i̇", "ǅ", "ǆ", "日本 A", "日本 a",
+	// texts that slug to separators only, or to nothing but a separator after the fallback
+	"- -", "--", "_ _", "\\_", "- _ -", "-a-", "--a", "a--"}
+
+// entityNames: HTML5 entity names spread over the whole table (for every initial letter the
+// first and the last name in sorted order where known, plus everyday ones).
+var entityNames = strings.Fields(`AElig AMP Aacute Ascr Auml Backslash Bumpeq CapitalDifferentialD Cup DD Dcaron DownArrow ENG Euml Fcy Fscr GJcy Gt HARDcy Hscr IEcy Iuml Jcirc Jukcy KHcy Kscr LJcy Lt Map Mu NJcy Nu OElig Ouml PartialD Psi QUOT Qscr REG Rsh SHCHcy Sum THORN Tstrok Uacute Uuml VDash Vvdash Wcirc Wscr Xfr Xscr YAcy Yuml ZHcy Zscr
+ aacute amp apos awint backcong bumpeq cacute cylcty dArr dzigrarr eDDot exponentiale fallingdotseq fscr gE gvnE hArr hyphen iacute iuml jcirc jukcy kappa kscr lAarr lvnE mDDot mumap nGg nwnear oS ovbar par puncsp qfr quot rAarr rx sacute szlig target twoheadrightarrow uArr uwangle vArr vzigzag wcirc wscr xcap xwedge yacute yuml zacute zcaron zcy zdot zeetrf zeta zfr zhcy zigrarr zopf zscr zwj zwnj
+ nbsp copy lt gt hearts ngE NotEqualTilde nvlt bne`)
 
 // tricky: strings on which un-escaping, entity resolution or URL escaping is NOT idempotent
 // (doing it twice gives something else than doing it once), so a transformation applied
@@ -176,6 +186,9 @@ func genFamily(r *Rng, fam string) []byte {
 		case 4: // destinations, titles, autolinks
 			for _, t := range toks {
 				fmt.Fprintf(&b, "[a](/%s?q=%s \"%s\") <http://%s.example/> www.%s.com &%s;\n", t, t, t, t, t, t)
+				if r.Split("uniq-scheme-"+t).Chance(1, 4) {
+					fmt.Fprintf(&b, "[b](%s%s)\n", pick(r.Split("uniq-scheme2-"+t), []string{"javascript:", "JavaScript:", "data:", "vbscript:", "file:"}), t)
+				}
 			}
 		default: // words with inline markup, attributes
 			for _, t := range toks {
@@ -310,6 +323,16 @@ func genFamily(r *Rng, fam string) []byte {
 	case "cjk":
 		fmt.Fprintf(&b, "日本語の\n文章 %s\nです。\\ x\nａ\nb\n", word(r))
 	case "entity":
+		if re := r.Split("entity-spread"); re.Chance(1, 2) {
+			// named entities from all over the table: first and last names of every initial
+			// letter, long and short names, names that are prefixes of others, in text, in a
+			// title, in a destination, in a code fence info string
+			for i := re.Range(2, 24); i > 0; i-- {
+				fmt.Fprintf(&b, "&%s; ", pick(re, entityNames))
+			}
+			fmt.Fprintf(&b, "[a](/u?x=&%s; \"&%s;\")\n\n```x&%s;y\nz\n```\n", pick(re, entityNames), pick(re, entityNames), pick(re, entityNames))
+			break
+		}
 		fmt.Fprintf(&b, "&amp; &copy; &#35; &#x22; &nosuch; &%s; &AElig &lt;%s&gt; [a](/u?a=1&amp;b \"&quot;\")\n", pick(r, []string{"nbsp", "Dcaron", "hearts", "ngE", "zwnj"}), word(r))
 	case "unilabel": // reference labels that need Unicode case folding and whitespace collapsing to match
 		pairs := [][2]string{{"ＡＢＣ ẞ", "ａｂｃ SS"}, {"ÄÖÜ", "äöü"}, {"ΑΓΩ", "αγω"}, {"Straße", "STRASSE"}, {"İstanbul", "i̇stanbul"}, {"ǅ x", "ǆ  X"}, {"Толпой", "ТОЛПОЙ"}, {"ﬁn", "FIN"}}
@@ -383,6 +406,33 @@ func genFamily(r *Rng, fam string) []byte {
 	case "quote":
 		fmt.Fprintf(&b, "> %s\n> > %s\nlazy %s\n\n> - %s\n", word(r), word(r), word(r), word(r))
 	case "link":
+		if rs := r.Split("schemes"); rs.Chance(1, 2) {
+			// destinations of both verdicts of the URL filter next to each other: script-capable
+			// schemes (any case, with unique tails sometimes), harmless look-alikes, the data:
+			// image exceptions, the same few destinations again and again across documents
+			for i := rs.Range(2, 8); i > 0; i-- {
+				var d string
+				switch rs.Intn(4) {
+				case 0:
+					d = randCase(rs, pick(rs, []string{"javascript:", "vbscript:", "file:", "data:"})) + pick(rs, []string{"alert(1)", "x", "text/html,hi", "//a/b", uniq(rs)})
+				case 1:
+					d = pick(rs, []string{"data:image/png;base64,AAAA", "data:image/gif;x", "data:image/svg+xml,<x>", "javascript", "java-script:x", "/javascript:x", "files:x", "datas:x", "vbscripts:x"})
+				case 2:
+					d = pick(rs, []string{"/url", "/u", "#frag", "http://example.com/", "mailto:a@b.c", "/"})
+				default:
+					d = "/" + uniq(rs)
+				}
+				if rs.Chance(1, 3) {
+					fmt.Fprintf(&b, "![%s](%s) ", word(rs), d)
+				} else if rs.Chance(1, 4) {
+					fmt.Fprintf(&b, "<%s> ", d)
+				} else {
+					fmt.Fprintf(&b, "[%s](%s) ", word(rs), d)
+				}
+			}
+			b.WriteString("\n")
+			break
+		}
 		fmt.Fprintf(&b, "[%s](/u/%s %s) ![i](/p.png?%s %s) <http://%s.com> [a [b] c](</u v>) [t](<%s>)\n", word(r), pick(r, tricky), genTitle(r), pick(r, tricky), genTitle(r), word(r), pick(r, tricky))
 	default:
 		fmt.Fprintf(&b, "%s\n%s\n", sentence(r, r.Range(1, 6)), sentence(r, 2))
@@ -417,6 +467,16 @@ func genLong(r *Rng) []byte {
 			fmt.Fprintf(&b, "%s %s %s\n", strings.Repeat("`", d), word(r), strings.Repeat("`", d))
 		}
 	case 11: // many cells in one table row, many columns
+		if rw := r.Split("short-rows"); rw.Chance(1, 2) {
+			// a wide header and many rows that are shorter than the header (the missing cells are
+			// supplied by the parser: tens of thousands per document)
+			c := pick(rw, []int{65, 129, 300})
+			fmt.Fprintf(&b, "|%s\n|%s\n", strings.Repeat(" h |", c), strings.Repeat("-|", c))
+			for i := 0; i < n && i < 300; i++ {
+				fmt.Fprintf(&b, "| %s |\n", word(rw))
+			}
+			break
+		}
 		c := pick(r, []int{17, 33, 65, 129})
 		fmt.Fprintf(&b, "|%s\n|%s\n|%s\n", strings.Repeat(" h |", c), strings.Repeat(pick(r, []string{":-|", "-:|", ":-:|"}), c), strings.Repeat(" `x\\|y` |", c))
 	case 12: // many items of every extension in one block group: tasks, definitions, footnote references
